@@ -2416,7 +2416,7 @@ class Attribute(object):
         if new_dbval is NOT_LOADED: obj._dbvals_.pop(attr, None)
         else: obj._dbvals_[attr] = new_dbval
 
-        wbit = bool(obj._wbits_ & bit)
+        wbit = bool(obj._wbits_ & obj._bits_[attr])  # (the bit of a volatile attribute too: a pending write is not replaced)
         if not wbit:
             old_val = obj._vals_.get(attr, NOT_LOADED)
             assert old_val == old_dbval, (old_val, old_dbval)
@@ -5013,7 +5013,7 @@ class Entity(object, metaclass=EntityMeta):
 
             if attr.reverse: attr.db_update_reverse(obj, old_dbval, new_dbval)
             obj._dbvals_[attr] = new_dbval
-            if wbits & bit:
+            if wbits & obj._bits_[attr]:  # (the bit of a volatile attribute too: a pending write is not replaced)
                 del new_vals[attr]
 
         for attr, new_val in new_vals.items():
